@@ -24,6 +24,10 @@ func (r *NgReader) readDecryptionSecretsBlock() error {
 	var decryptionSecretsBlock = &pcapngDecryptionSecretsBlock{}
 	decryptionSecretsBlock.secretsType = r.getUint32(r.buf[0:4])
 	decryptionSecretsBlock.secretsLength = r.getUint32(r.buf[4:8])
+	// the secrets and the trailing block length must fit into the remainder of the block
+	if uint64(decryptionSecretsBlock.secretsLength)+4 > uint64(r.currentBlock.length) {
+		return fmt.Errorf("DecryptionSecret payload length %d exceeds remaining block length %d", decryptionSecretsBlock.secretsLength, r.currentBlock.length)
+	}
 	var payload = make([]byte, decryptionSecretsBlock.secretsLength)
 	if _, err := r.readBytes(payload); err != nil {
 		return fmt.Errorf("could not read %d bytes from DecryptionSecret payload: %v", decryptionSecretsBlock.secretsLength, err)
